@@ -162,7 +162,8 @@ C03_REASONS = ["a stop between two complete writes left a file that does not ope
                "UTC entries are not an in-order selection of unaltered submitted ones",
                "user data are not an in-order selection of unaltered submitted items"]
 C19_REASONS = ["a file that opened once does not open again", "opening the file again modified it",
-               "a second open shows different content than the first", "after the repairing open the file is not a well-formed closed file"]
+               "a second open shows different content than the first", "after the repairing open the file is not a well-formed closed file",
+               "after the open a link of the file leads to a chunk of another list or to no chunk"]
 for _r in C03_REASONS:
     REASON_PROP[_r] = "C03"
 for _r in C19_REASONS:
